@@ -50,6 +50,10 @@ def symbolic_trace(rng, ncalls=10):
     run = ProgramRun(plan)
     user = run.model
     hdr = run.header()
+    # the user may have switched auto-update off (after a full update) before creating the interface
+    if rng.random() < 0.35:
+        user.update()
+        user.auto_update = False
     iface = gs.LieselInterface(user)
     scratch = copy.deepcopy(user)          # only used by the driver to read states
     pool = []
@@ -117,6 +121,7 @@ def symbolic_trace(rng, ncalls=10):
             user.nodes[f"n{k}"].value = Term("u" + str(rng.randint(0, 9)))
             ev.append({"ev": "user_assign", "n": k})
             if rng.random() < 0.5:
+                user.update()
                 add_state(user.state)
     return {"hdr": hdr, "ev": ev}
 
@@ -133,8 +138,10 @@ def _vec(state, names):
 def numeric_trace(rng, family):
     model, recipe, draws, user = model_family(family)
     iface = gs.LieselInterface(model)
-    names = ["_model_log_prob", "_model_log_lik", "_model_log_prior"] + sorted(
-        n for n in model.nodes if n.endswith("_value"))[:4]
+    # every node of the state (incl. the per-observation log-prob of each distribution node); a changed
+    # shape changes the length of the flattened vector
+    names = sorted(n for n, nd in model.nodes.items() if model.state[n].value is not None
+                   and not n.endswith("_seed"))
     ev = []
     st = model.state
     for _ in range(3):
